@@ -2,6 +2,7 @@ package main
 
 import (
 	"fmt"
+	"os"
 	"go/ast"
 	"go/token"
 	"go/types"
@@ -706,6 +707,13 @@ func (f *Flow) summarise(spec Spec, fi *FuncInfo, entry Facts) *helperSummary {
 		}
 		all = join(all, at, nAll == 0)
 		nAll++
+		if hs.boolResult && (ex.Ret == nil || hs.boolIdx >= len(ex.Ret.Results)) {
+			// `return f()` with several results, or a bare return of named results: either outcome
+			onTrue = join(onTrue, at, nTrue == 0)
+			nTrue++
+			onFalse = join(onFalse, at, nFalse == 0)
+			nFalse++
+		}
 		if hs.boolResult && ex.Ret != nil && hs.boolIdx < len(ex.Ret.Results) {
 			switch exprStr(unparen(ex.Ret.Results[hs.boolIdx])) {
 			case "true":
@@ -806,6 +814,9 @@ func (f *Flow) applyHelpers(spec Spec, n ast.Node, cur Facts) Facts {
 		if hs.complete {
 			for k := range entry {
 				if !hs.all[k] && (spec.Must || (!hs.onNil[k] && !hs.onErr[k])) {
+					if os.Getenv("GODICHECK_DEBUG") == "kill" {
+						fmt.Fprintf(os.Stderr, "helper %s (depth %d) kills %s at %s\n", fi.Name(), spec.depth, k, f.W.Pos(c.Pos()))
+					}
 					delete(cur, k)
 				}
 			}
